@@ -138,9 +138,9 @@ def normalise(insns):
         text = re.sub(r"\s*#.*$", "", text)
         # a zero displacement is not part of the instruction's meaning: Orc encodes 0(%exec_reg) with an explicit disp8 of 0 (to
         # keep instruction lengths independent of the offset), the assembler uses the shorter form without displacement
-        text = re.sub(r"(?<![0-9A-Za-z])0x0\((?=%)", "(", text)
         if NOP_RE.match(text) or text == "(bad)" and False:
             continue
+        text = re.sub(r"(?<![0-9A-Za-z])0x0\((?=%)", "(", text)      # after the nop test: some padding nops are `lea 0x0(%esi,%eiz,1),%esi`
         keep.append((addr, text))
     addrs = [a for a, _ in keep]
 
